@@ -201,15 +201,16 @@ const HEADER: &str = "From Coq Require Import List NArith ZArith.\nFrom C13 Requ
 // ---------- leg ids ----------
 fn leg_ids(out: &str, tier: &str, summary: &mut serde_json::Map<String, Value>, samples: &mut Vec<String>) {
     let mut files: Vec<PathBuf> = vec![];
-    for d in ["/repo/examples", "/verif/corpus/C13", "/verif/corpus/C20", "/repo/corelib/src"] {
-        files.extend(cairo_files(Path::new(d)));
+    let (repo, vr) = (h13::repo(), h13::verif_root());
+    for d in [format!("{repo}/examples"), format!("{vr}/corpus/C13"), format!("{vr}/corpus/C20"), format!("{repo}/corelib/src")] {
+        files.extend(cairo_files(Path::new(&d)));
     }
     let mut rng = Rng::from_env();
     // Coq reads case files at a few KB/s: the budget is in nodes (about 50 bytes of Coq text each)
     let (max_files, max_bytes, max_nodes, budget) =
         if tier == "thorough" { (140, 40_000, 8_000, 80_000usize) } else { (36, 9_000, 2_500, 11_000usize) };
     // examples + corpus always; corelib files sampled by seed
-    let (fixed, mut pool): (Vec<_>, Vec<_>) = files.into_iter().partition(|p| !p.starts_with("/repo/corelib"));
+    let (fixed, mut pool): (Vec<_>, Vec<_>) = files.into_iter().partition(|p| !p.starts_with(format!("{repo}/corelib")));
     let mut chosen = fixed;
     // a seeded rotation of the fixed part, so that different seeds read different example files first
     if !chosen.is_empty() {
@@ -443,6 +444,81 @@ fn is_boundary(t: &str, i: usize) -> bool {
 struct Gen<'a> {
     rng: &'a mut Rng,
     counter: usize,
+    /// histories that concentrate on constructs carrying diagnostics (every phase), inserted before
+    /// and between the existing ones, duplicated, moved, deleted
+    diag_mode: bool,
+}
+
+/// A self-contained statement that carries a diagnostic. `phase`: 0 lowering/borrow-check (also inside
+/// generated functions: loops, while, for, closures), 1 semantic (incl. inline macros), 2 warning,
+/// 3 parser. Some come in two forms: as an expression statement and as the initializer of a `let`
+/// (a different syntax kind, so that the following statements keep their stable pointers).
+fn diag_statement(rng: &mut Rng, n: usize, phase: u64, has_nodrop: bool) -> (String, &'static str) {
+    let mv = |v: &str| format!("let {v}: Array<felt252> = array![]; let _{v}1 = {v}; let _{v}2 = {v};");
+    match phase {
+        0 => match rng.below(if has_nodrop { 9 } else { 8 }) {
+            0 => (format!("loop {{ {} break; }};", mv(&format!("la{n}"))), "lowering:loop-stmt"),
+            1 => (format!("let _z{n}: felt252 = loop {{ {} break 1; }};", mv(&format!("lb{n}"))), "lowering:loop-let"),
+            2 => (format!("let mut i{n}: u8 = 0; while i{n} < 2 {{ {} i{n} += 1; }};", mv(&format!("lw{n}"))), "lowering:while"),
+            3 => (format!("for _e{n} in array![1_u8, 2].span() {{ {} }};", mv(&format!("lf{n}"))), "lowering:for"),
+            4 => (format!("let _c{n} = |x{n}: felt252| {{ {} x{n} }};", mv(&format!("lc{n}"))), "lowering:closure-let"),
+            5 => (mv(&format!("lp{n}")), "lowering:plain-move"),
+            6 => (
+                format!("let _y{n}: felt252 = if true {{ loop {{ {} break 2; }} }} else {{ 3 }};", mv(&format!("ln{n}"))),
+                "lowering:loop-in-if-let",
+            ),
+            7 => (
+                format!("let _k{n} = |y{n}: felt252| {{ loop {{ {} break; }}; y{n} }};", mv(&format!("lk{n}"))),
+                "lowering:loop-in-closure",
+            ),
+            _ => (format!("let _nd{n} = NoDrop {{ x: {n} }};"), "lowering:not-dropped"),
+        },
+        1 => match rng.below(8) {
+            0 => (format!("let _s{n}: u8 = 300_u16;"), "semantic:type-mismatch"),
+            1 => (format!("let _s{n} = undefined_{n};"), "semantic:unknown-identifier"),
+            2 => (format!("let _s{n}: felt252 = 1 + true;"), "semantic:operand"),
+            3 => (format!("no_such_function_{n}();"), "semantic:unknown-function"),
+            4 => (format!("let _m{n} = array![1, true];"), "semantic:in-array-macro"),
+            5 => (format!("let _p{n} = format!(\"{{}} {{}}\", {n});"), "plugin:format-args"),
+            6 => (format!("unknown_macro_{n}!(1);"), "semantic:unknown-inline-macro"),
+            _ => (format!("println!(\"{{}}\", not_defined_{n});"), "semantic:in-println"),
+        },
+        2 => match rng.below(3) {
+            0 => (format!("let unused_{n} = {n};"), "warning:unused-variable"),
+            1 => (format!("let mut w{n}: u8 = 0; while w{n} < 1 {{ let dead_{n} = 5; w{n} += 1; }};"), "warning:unused-in-loop"),
+            _ => (format!("let shadow_{n} = 1; let shadow_{n} = 2;"), "warning:unused-shadowed"),
+        },
+        _ => match rng.below(3) {
+            0 => (format!("let _q{n} = (1 + ;"), "parser:missing-operand"),
+            1 => ("let = 5;".to_string(), "parser:missing-pattern"),
+            _ => (format!("let _q{n} = [1, 2;"), "parser:unclosed-bracket"),
+        },
+    }
+}
+
+/// A self-contained module-level item that carries diagnostics.
+fn diag_item(rng: &mut Rng, n: usize) -> (String, &'static str) {
+    let mv = |v: &str| format!("let {v}: Array<felt252> = array![]; let _{v}1 = {v}; let _{v}2 = {v};");
+    match rng.below(8) {
+        0 => (
+            format!(
+                "fn low_{n}() {{\n    loop {{ {} break; }};\n    let _z: felt252 = loop {{ {} break 1; }};\n}}\n",
+                mv("a"),
+                mv("b")
+            ),
+            "item:two-loops",
+        ),
+        1 => (
+            format!("fn clo_{n}() -> felt252 {{\n    let c = |x: felt252| {{ {} x }};\n    let d = |x: felt252| {{ {} x }};\n    c(1) + d(2)\n}}\n", mv("a"), mv("b")),
+            "item:two-closures",
+        ),
+        2 => (format!("fn sem_{n}() -> u8 {{\n    let _a: u8 = 300_u16;\n    undefined_{n}\n}}\n"), "item:semantic"),
+        3 => (format!("#[derive(NoSuchDerive{n})]\nstruct Pd{n} {{\n    a: felt252,\n}}\n"), "item:plugin-derive"),
+        4 => (format!("#[inline(maybe)]\nfn inl_{n}() {{}}\n"), "item:inline-args"),
+        5 => (format!("fn warn_{n}() -> felt252 {{\n    let unused_a = 1;\n    let unused_b = 2;\n    3\n}}\n"), "item:warnings"),
+        6 => (format!("fn syn_{n}() {{\n    let = 5;\n    let _b = (1 + ;\n}}\n"), "item:parser"),
+        _ => (format!("const BAD_{n}: u8 = 300;\nconst BAD2_{n}: felt252 = undefined_{n};\n"), "item:consts"),
+    }
 }
 
 impl Gen<'_> {
@@ -455,7 +531,7 @@ impl Gen<'_> {
     fn step_ex(&mut self, files: &[FileState], last: bool, broken: bool, good: Option<&Vec<String>>) -> Step {
         // a project that no longer compiles is brought back to its last error-free contents with some
         // probability, so that long histories keep producing Sierra
-        if let (true, Some(g)) = (broken, good) {
+        if let (true, Some(g), false) = (broken, good, self.diag_mode) {
             if self.rng.below(100) < 35 {
                 let sp: Vec<Splice> = files
                     .iter()
@@ -485,6 +561,29 @@ impl Gen<'_> {
             }
         };
         let walk = self.rng.below(3) == 0;
+        if self.diag_mode {
+            // always ask for the diagnostics (full ordered text is compared)
+            let query = if query >= 3 { (query - 3).min(1) } else { query };
+            for _ in 0..40 {
+                let f = self.rng.below(files.len() as u64) as usize;
+                let text = files[f].cur().to_string();
+                let m = marks_of(&text);
+                let r = match self.rng.below(100) {
+                    0..=44 => self.insert_diag_statement(f, &files[f], &text, &m),
+                    45..=52 => self.insert_diag_item(f, &m),
+                    53..=62 => self.duplicate(f, &text, &m),
+                    63..=72 => self.delete(f, &text, &m),
+                    73..=80 => self.move_statement(f, &text, &m),
+                    81..=85 => self.move_item(f, &text, &m),
+                    86..=91 => self.trivia(f, &text, &m),
+                    92..=95 => self.rename(files, f, &text, &m),
+                    _ => self.unset(files, f),
+                };
+                if let Some((kind, action)) = r {
+                    return Step { kind, action, query, walk };
+                }
+            }
+        }
         for _ in 0..40 {
             let f = self.rng.below(files.len() as u64) as usize;
             let text = files[f].cur().to_string();
@@ -612,6 +711,59 @@ impl Gen<'_> {
         }
         let (a, b) = *self.rng.pick(pool);
         Some((kind.into(), Action::Edit(vec![Splice { file: f, start: b, end: b, text: text[a..b].to_string() }])))
+    }
+
+    /// The phase of the construct follows the file (low*/sem*/warn*/syn*), so that e.g. functions with
+    /// lowering diagnostics are not silenced by a semantic error next to them; other files: any phase.
+    fn insert_diag_statement(&mut self, f: usize, fs: &FileState, text: &str, m: &Marks) -> Option<(String, Action)> {
+        if m.stmt_points.is_empty() {
+            return None;
+        }
+        let stem = fs.path.file_stem().map(|s| s.to_string_lossy().to_string()).unwrap_or_default();
+        let natural = if stem.starts_with("low") {
+            Some(0)
+        } else if stem.starts_with("sem") {
+            Some(1)
+        } else if stem.starts_with("warn") {
+            Some(2)
+        } else if stem.starts_with("syn") {
+            Some(3)
+        } else {
+            None
+        };
+        let phase = match natural {
+            Some(p) if self.rng.below(10) < 9 => p,
+            _ => *self.rng.pick(&[0u64, 0, 0, 1, 1, 2, 2, 3]),
+        };
+        let n = self.fresh();
+        let (stmt, kind) = diag_statement(self.rng, n, phase, text.contains("struct NoDrop"));
+        let at = *self.rng.pick(&m.stmt_points);
+        Some((format!("insert-diag:{kind}"), Action::Edit(vec![Splice { file: f, start: at, end: at, text: format!("\n    {stmt}") }])))
+    }
+
+    fn insert_diag_item(&mut self, f: usize, m: &Marks) -> Option<(String, Action)> {
+        let n = self.fresh();
+        let (item, kind) = diag_item(self.rng, n);
+        let at = *self.rng.pick(&m.item_points);
+        Some((format!("insert-diag:{kind}"), Action::Edit(vec![Splice { file: f, start: at, end: at, text: format!("\n{item}") }])))
+    }
+
+    fn move_statement(&mut self, f: usize, text: &str, m: &Marks) -> Option<(String, Action)> {
+        if m.statements.is_empty() || m.stmt_points.is_empty() {
+            return None;
+        }
+        let (a, b) = *self.rng.pick(&m.statements);
+        let to = *self.rng.pick(&m.stmt_points);
+        if to > a && to < b {
+            return None;
+        }
+        Some((
+            "move:statement".into(),
+            Action::Edit(vec![
+                Splice { file: f, start: a, end: b, text: String::new() },
+                Splice { file: f, start: to, end: to, text: text[a..b].to_string() },
+            ]),
+        ))
     }
 
     fn move_item(&mut self, f: usize, text: &str, m: &Marks) -> Option<(String, Action)> {
@@ -775,6 +927,9 @@ struct Stats {
     steps_with_sierra: usize,
     distinct_states: std::collections::HashSet<u64>,
     outputs: std::collections::HashSet<u64>,
+    /// steps whose diagnostics carry >= 2 entries of a phase: [parser, semantic, lowering, warning, plugin]
+    multi_diag: [usize; 5],
+    diag_constructs: HashMap<String, usize>,
     panics_both: usize,
     fresh_ms: u128,
     incr_ms: u128,
@@ -905,6 +1060,9 @@ fn run_history(
             }
         }
         *stats.kinds.entry(step.kind.clone()).or_insert(0) += 1;
+        if let Some(k) = step.kind.strip_prefix("insert-diag:") {
+            *stats.diag_constructs.entry(k.to_string()).or_insert(0) += 1;
+        }
         stats.steps += 1;
         let state_hash = files.iter().fold(0u64, |h, f| h.wrapping_mul(31).wrapping_add(fnv(f.cur())));
         stats.distinct_states.insert(state_hash);
@@ -957,6 +1115,19 @@ fn run_history(
         stats.outputs.insert(fnv(&fd) ^ fnv(&fs).rotate_left(17));
         if want_diag {
             broken = fd.contains("error");
+            let count = |pred: &dyn Fn(&str) -> bool| fd.lines().filter(|l| pred(l)).count();
+            let c = [
+                count(&|l| l.starts_with("error[E1")),
+                count(&|l| l.starts_with("error[E0") || (l.starts_with("error[E2") && !l.starts_with("error[E2200]"))),
+                count(&|l| l.starts_with("error[E3")),
+                count(&|l| l.starts_with("warning[")),
+                count(&|l| l.starts_with("error[E2200]")),
+            ];
+            for (i, n) in c.iter().enumerate() {
+                if *n >= 2 {
+                    stats.multi_diag[i] += 1;
+                }
+            }
             if !broken {
                 last_good = Some(files.iter().map(|f| f.cur().to_string()).collect());
             }
@@ -991,14 +1162,17 @@ fn leg_reid(out: &str, tier: &str, summary: &mut serde_json::Map<String, Value>,
     let mut rng = Rng::from_env();
     rng.next();
     let n_cases = if tier == "thorough" { 30 } else { 7 };
-    let srcs: Vec<PathBuf> = ["/repo/examples", "/verif/corpus/C13"].iter().flat_map(|d| cairo_files(Path::new(d))).collect();
+    let srcs: Vec<PathBuf> = [format!("{}/examples", h13::repo()), format!("{}/corpus/C13", h13::verif_root())]
+        .iter()
+        .flat_map(|d| cairo_files(Path::new(d)))
+        .collect();
     let work = PathBuf::from(format!("{out}/../work/reid"));
     let _ = std::fs::remove_dir_all(&work);
     std::fs::create_dir_all(&work).unwrap();
     let mut cases: Vec<String> = vec![];
     let mut it = Interner::default();
     let (mut kept, mut fresh_ids, mut total) = (0usize, 0usize, 0usize);
-    let mut g = Gen { rng: &mut rng, counter: 0 };
+    let mut g = Gen { rng: &mut rng, counter: 0, diag_mode: false };
     for c in 0..n_cases {
         let src = &srcs[g.rng.below(srcs.len() as u64) as usize];
         let text = std::fs::read_to_string(src).unwrap();
@@ -1080,10 +1254,13 @@ fn leg_reid(out: &str, tier: &str, summary: &mut serde_json::Map<String, Value>,
 }
 
 fn projects() -> Vec<Project> {
+    let (repo, vr) = (h13::repo(), h13::verif_root());
     vec![
-        Project { name: "multi".into(), src: "/verif/corpus/C13/multi".into() },
-        Project { name: "single".into(), src: "/verif/corpus/C13/single/lib.cairo".into() },
-        Project { name: "examples".into(), src: "/repo/examples".into() },
+        Project { name: "multi".into(), src: format!("{vr}/corpus/C13/multi").into() },
+        Project { name: "diags".into(), src: format!("{vr}/corpus/C13/diags").into() },
+        Project { name: "single".into(), src: format!("{vr}/corpus/C13/single/lib.cairo").into() },
+        Project { name: "diags".into(), src: format!("{vr}/corpus/C13/diags").into() },
+        Project { name: "examples".into(), src: format!("{repo}/examples").into() },
     ]
 }
 
@@ -1116,7 +1293,7 @@ fn main() {
     if legs.contains("oracle") {
         let t1 = Instant::now();
         let seed = std::env::var("VERIF_SEED").ok().and_then(|s| s.parse::<u64>().ok()).unwrap_or(1);
-        let (n_hist, n_steps) = if tier == "thorough" { (60usize, 30usize) } else { (18, 8) };
+        let (n_hist, n_steps) = if tier == "thorough" { (70usize, 30usize) } else { (25, 8) };
         let n_hist = std::env::var("H13_HISTORIES").ok().and_then(|s| s.parse().ok()).unwrap_or(n_hist);
         let n_steps = std::env::var("H13_STEPS").ok().and_then(|s| s.parse().ok()).unwrap_or(n_steps);
         let threads = std::env::var("H13_THREADS").ok().and_then(|s| s.parse().ok()).unwrap_or(if tier == "thorough" { 8usize } else { 12 });
@@ -1135,7 +1312,7 @@ fn main() {
                         }
                         let proj = &projs[h % projs.len()];
                         let mut rng = Rng(seed.wrapping_mul(0x9E3779B97F4A7C15).wrapping_add(1000 + h as u64));
-                        let generator = Gen { rng: &mut rng, counter: 0 };
+                        let generator = Gen { rng: &mut rng, counter: 0, diag_mode: proj.name == "diags" };
                         let work = PathBuf::from(format!("{out}/../work/h{h}"));
                         let mut st = Stats::default();
                         let (steps, fail) = run_history(&work, proj, n_steps, Some(generator), &[], &mut st, std::env::var("H13_VERBOSE").is_ok());
@@ -1162,6 +1339,8 @@ fn main() {
         let mut kinds: std::collections::BTreeMap<String, usize> = Default::default();
         let mut distinct = std::collections::HashSet::new();
         let mut outputs = std::collections::HashSet::new();
+        let mut multi = [0usize; 5];
+        let mut constructs: std::collections::BTreeMap<String, usize> = Default::default();
         let (mut steps, mut dc, mut scmp, mut tc, mut wd, mut ws, mut pb, mut fms, mut ims) = (0, 0, 0, 0, 0, 0, 0, 0u128, 0u128);
         for s in &stats {
             steps += s.steps;
@@ -1178,6 +1357,12 @@ fn main() {
             }
             distinct.extend(s.distinct_states.iter().copied());
             outputs.extend(s.outputs.iter().copied());
+            for i in 0..5 {
+                multi[i] += s.multi_diag[i];
+            }
+            for (k, v) in &s.diag_constructs {
+                *constructs.entry(k.clone()).or_insert(0) += v;
+            }
         }
         failures = all_fail.into_inner().unwrap();
         samples.extend(all_samples.into_inner().unwrap());
@@ -1192,6 +1377,11 @@ fn main() {
         summary.insert("oracle_steps_with_sierra_program".into(), json!(ws));
         summary.insert("oracle_distinct_project_states".into(), json!(distinct.len()));
         summary.insert("oracle_distinct_outputs".into(), json!(outputs.len()));
+        summary.insert(
+            "oracle_steps_with_2plus_diagnostics_of_phase".into(),
+            json!({"parser": multi[0], "semantic": multi[1], "lowering": multi[2], "warning": multi[3], "plugin": multi[4]}),
+        );
+        summary.insert("oracle_diag_constructs_inserted".into(), json!(constructs));
         summary.insert("oracle_panic_in_both".into(), json!(pb));
         summary.insert("oracle_fresh_db_ms".into(), json!(fms as u64));
         summary.insert("oracle_live_db_ms".into(), json!(ims as u64));
